@@ -5,6 +5,8 @@ import (
 	"fmt"
 	"sort"
 	"strings"
+
+	"golang.org/x/tools/go/ssa"
 )
 
 // Obl is one obligation instance (rule x effect site x call path), DESIGN §2.14.
@@ -109,8 +111,15 @@ func (a *Analyzer) Normalize(f Facts) (Facts, map[string]*Term) {
 					}
 				}
 			}
-			if base.Op == "ext" && len(base.Args) == 1 && base.Args[0].Op == "call" && a.calleeOf(base.Args[0]) != nil &&
-				(a.rwRank(l) > a.rwRank(r) || (a.rwRank(l) == a.rwRank(r) && !(r.Op == "ext" && len(r.Args) == 1 && r.Args[0].Op == "call" && r.Key() > l.Key()))) {
+			isHelperResult := base.Op == "ext" && len(base.Args) == 1 && base.Args[0].Op == "call" && a.calleeOf(base.Args[0]) != nil
+			if !isHelperResult && base != l && base.Op == "call" {
+				// a field of the single (struct / pointer) result of an unexported helper
+				if g := a.calleeOf(base); g != nil && g.Signature.Results().Len() == 1 && !token.IsExported(g.Name()) {
+					isHelperResult = true
+				}
+			}
+			if isHelperResult &&
+				(a.rwRank(l) > a.rwRank(r) || (a.rwRank(l) == a.rwRank(r) && a.rwTieBreak(l, r))) {
 				internal := r.Contains(func(t *Term) bool { return t.Op == "phi" || t.Op == "unk" || t.Op == "make" })
 				if !r.ContainsKey(l.Key()) && r.Key() != tNil.Key() && !internal {
 					if _, dup := rw[l.Key()]; !dup {
@@ -534,6 +543,54 @@ func fmtf(format string, a ...interface{}) string { return fmt.Sprintf(format, a
 // rwRank orients value equalities into rewrite rules (no cycles): a projection of a helper's result struct is rewritten
 // to what it equals, the result of an unexported helper is rewritten to the result of an exported (anchor) function,
 // never the other way round.
+// rwTieBreak: two helper results of equal rank. The result of the helper that (transitively) calls the other one is
+// rewritten to the inner one (a wrapper's result is defined by what it wraps); unrelated helpers are ordered by key.
+func (a *Analyzer) rwTieBreak(l, r *Term) bool {
+	fnOf := func(t *Term) *ssa.Function {
+		b := t
+		if b.Op == "field" && len(b.Args) == 1 {
+			b = b.Args[0]
+		}
+		if b.Op == "ext" && len(b.Args) == 1 {
+			b = b.Args[0]
+		}
+		if b.Op == "call" {
+			return a.calleeOf(b)
+		}
+		return nil
+	}
+	lf, rf := fnOf(l), fnOf(r)
+	if lf != nil && rf != nil && lf != rf {
+		lr := a.callsTransitively(lf, rf)
+		rl := a.callsTransitively(rf, lf)
+		if lr && !rl {
+			return true
+		}
+		if rl && !lr {
+			return false
+		}
+	}
+	return !(r.Op == "ext" && len(r.Args) == 1 && r.Args[0].Op == "call" && r.Key() > l.Key())
+}
+
+func (a *Analyzer) callsTransitively(f, g *ssa.Function) bool {
+	seen := map[*ssa.Function]bool{}
+	var rec func(x *ssa.Function, d int) bool
+	rec = func(x *ssa.Function, d int) bool {
+		if seen[x] || d > 6 {
+			return false
+		}
+		seen[x] = true
+		for _, c := range a.calleesOf(x) {
+			if c == g || rec(c, d+1) {
+				return true
+			}
+		}
+		return false
+	}
+	return rec(f, 0)
+}
+
 func (a *Analyzer) rwRank(t *Term) int {
 	rank := 0
 	base := t
@@ -543,6 +600,15 @@ func (a *Analyzer) rwRank(t *Term) int {
 	}
 	if base.Op == "ext" && len(base.Args) == 1 && base.Args[0].Op == "call" {
 		if f := a.calleeOf(base.Args[0]); f != nil {
+			if !token.IsExported(f.Name()) {
+				rank++
+			}
+			return rank
+		}
+	}
+	if base.Op == "call" {
+		// the single result of a library helper
+		if f := a.calleeOf(base); f != nil && f.Signature.Results().Len() == 1 {
 			if !token.IsExported(f.Name()) {
 				rank++
 			}
